@@ -60,10 +60,10 @@ Check cyclicb_sound : forall es n,
 
 (* non-vacuity: A{b: B} B{a: A} C{a: A, m: map<C>} — A and B are marked, C too (a map value is a dependency), and the fingerprint rule makes a named union U = oneOf[A,B] depend on itself *)
 Example C10_nonvacuous :
-  let A := SObj [SRef 1] [] [] [] None None in
-  let B := SObj [SRef 0] [] [] [] None None in
-  let C := SObj [SRef 0] [] [] [] None (Some (SRef 2)) in
-  let U := SObj [] [] [SRef 0; SRef 1] [] None None in
+  let A := SObj [SRef 1] [] [] [] None None false in
+  let B := SObj [SRef 0] [] [] [] None None false in
+  let C := SObj [SRef 0] [] [] [] None (Some (SRef 2)) false in
+  let U := SObj [] [] [SRef 0; SRef 1] [] None None false in
   marks [A; B; C; U] = [(0, true); (1, true); (2, true); (3, true)]%N
   /\ deps [A; B; C; U] = [(0, 1); (1, 0); (2, 0); (2, 2); (3, 0); (3, 1); (3, 3)]%N.
 Proof. vm_compute. split; reflexivity. Qed.
